@@ -20,3 +20,41 @@ package step_invariant
 //@       cast(result0, *step_invariant.stepInvariantOperator).stepsBatch == stepsBatch
 //@   ensures[C06] caches-unless-range-vector: cast(result0, *step_invariant.stepInvariantOperator).cacheResult ==
 //@       !(istype(expr, *parser.MatrixSelector) || istype(expr, *parser.SubqueryExpr))
+
+// cacheInputVector (C06, C07): the pinned child is evaluated once per query - a later call never
+// pulls it again - and its single step vector is copied (ids and values pair up).
+//@ func (*stepInvariantOperator).cacheInputVector
+//@   requires u != nil && u.next != nil && u.vectorPool != nil && ctx != nil
+//@   requires len(u.cachedVector.SampleIDs) == len(u.cachedVector.Samples) && allocated(u.cachedVector.Samples) && allocated(u.cachedVector.SampleIDs)
+//@   panics may
+//@   assigns step_invariant.stepInvariantOperator.cachedVector, step_invariant.stepInvariantOperator.cacheVectorOnce, ghost ended
+//@   ensures allocated(u.cachedVector.Samples) && allocated(u.cachedVector.SampleIDs)
+//@   ensures[C06,C07] pinned-child-evaluated-once: old(u.cacheVectorOnce) != 0 ==> ncalls("model.VectorOperator.Next") == 0
+//@   ensures[C06] at-most-one-pull-per-call: ncalls("model.VectorOperator.Next") <= 1
+//@   ensures[C18] cached-ids-and-values-pair-up: result == nil ==> len(u.cachedVector.SampleIDs) == len(u.cachedVector.Samples)
+//@   ensures cache-filled: u.cacheVectorOnce != 0
+
+// Next (C06, C07, C18): with a cached vector every step of the outer grid gets a copy of that same
+// vector: steps currentStep, currentStep+step, ..., at most stepsBatch of them, none beyond maxt.
+//@ func (*stepInvariantOperator).Next
+//@   requires ctx != nil && u != nil && u.next != nil && u.vectorPool != nil && u.step >= 1 && u.stepsBatch >= 1
+//@   requires len(u.cachedVector.SampleIDs) == len(u.cachedVector.Samples) && allocated(u.cachedVector.Samples) && allocated(u.cachedVector.SampleIDs)
+//@   panics may
+//@   ensures[C18] error-means-no-batch: result1 != nil ==> isnil(result0)
+//@   ensures[C07,C18] batch-size: result1 == nil && !isnil(result0) && u.cacheResult ==> 1 <= len(result0) && len(result0) <= u.stepsBatch
+//@   ensures[C06,C07,C18] one-vector-per-step: result1 == nil && !isnil(result0) && u.cacheResult ==> forall k in 0..len(result0) ::
+//@       result0[k].T == old(u.currentStep) + k*u.step && result0[k].T <= u.maxt
+//@   ensures[C07,C18] batch-is-maximal: result1 == nil && !isnil(result0) && u.cacheResult ==> len(result0) == u.stepsBatch || u.currentStep > u.maxt
+//@   ensures[C07,C18] cursor-advances: result1 == nil && !isnil(result0) && u.cacheResult ==> u.currentStep == old(u.currentStep) + len(result0)*u.step
+//@   ensures[C06] same-vector-at-every-step: result1 == nil && !isnil(result0) && u.cacheResult ==> forall k in 0..len(result0) ::
+//@       len(result0[k].Samples) == len(u.cachedVector.Samples) && len(result0[k].SampleIDs) == len(u.cachedVector.SampleIDs) &&
+//@       (forall j in 0..len(u.cachedVector.Samples) :: result0[k].Samples[j] == u.cachedVector.Samples[j]) &&
+//@       (forall j in 0..len(u.cachedVector.SampleIDs) :: result0[k].SampleIDs[j] == u.cachedVector.SampleIDs[j])
+//@   loop 0 invariant grid: u != nil && u.vectorPool != nil && 0 <= i && i <= u.stepsBatch && len(result) == i && !isnil(result) && fresh(result) &&
+//@       u.currentStep == old(u.currentStep) + i*u.step && u.step == old(u.step) && u.maxt == old(u.maxt) && u.stepsBatch == old(u.stepsBatch) && u.step >= 1 &&
+//@       len(u.cachedVector.SampleIDs) == len(u.cachedVector.Samples) && (i == 0 ==> u.currentStep <= u.maxt)
+//@   loop 0 invariant steps: forall k in 0..i :: result[k].T == old(u.currentStep) + k*u.step && result[k].T <= u.maxt
+//@   loop 0 invariant buffers: allocated(u.cachedVector.Samples) && allocated(u.cachedVector.SampleIDs) && (forall k in 0..i :: allocated(result[k].Samples) && allocated(result[k].SampleIDs))
+//@   loop 0 invariant copies: forall k in 0..i :: len(result[k].Samples) == len(u.cachedVector.Samples) && len(result[k].SampleIDs) == len(u.cachedVector.SampleIDs) &&
+//@       (forall j in 0..len(u.cachedVector.Samples) :: result[k].Samples[j] == u.cachedVector.Samples[j]) &&
+//@       (forall j in 0..len(u.cachedVector.SampleIDs) :: result[k].SampleIDs[j] == u.cachedVector.SampleIDs[j])
